@@ -212,7 +212,7 @@ CONTEXTS = {
 }
 HAZARDS = ["-", "+", "*", "1.", "2)", "10.", "#", "##", "######", ">", "---", "***", "___", "===", "=", "--", "```", "~~~", "````", "|", "|x|", "- - -", "* * *",
            "[x]", "[ ]", "+1", "-x", "#hash", ">x", "1.x", "<!--", "{%", "1.", "\\", "&", "_", "~", "`", "!", ":", "[^a]:", "[a]:",
-           "** *", "__ _", "_ _ _", "-- -", "**", "__", "* *", "- -", "== =", "\\\\", "x\\"]
+           "** *", "__ _", "_ _ _", "-- -", "**", "__", "* *", "- -", "== =", "\\\\", "x\\", "-|", ":-:", "|-|", "x|", "| -"]
 FILL = ["a", "bb", "ccc", "dddd", "eeeee", "ffffff"]
 
 
